@@ -376,6 +376,8 @@ class YAMLPath:
         search_attr: str = ""
         search_keyword: Optional[PathSearchKeywords] = None
         seeking_regex_delim: bool = False
+        term_demarc_mark: Optional[str] = None
+        term_demarc_end: int = -1
         capturing_regex: bool = False
         pathsep: str = str(self.separator)
         collector_level: int = 0
@@ -478,6 +480,11 @@ class YAMLPath:
                         # Close a matching pair
                         demarc_stack.pop()
                         demarc_count -= 1
+                        if (demarc_count == 1
+                                and char == term_demarc_mark):
+                            # Where the demarcated search term ends, once
+                            # this mark has been added to it
+                            term_demarc_end = len(segment_id) + 1
 
                         # Record the element_id when all pairs have closed
                         # unless there is no element_id.
@@ -496,6 +503,12 @@ class YAMLPath:
                             continue
                     else:
                         # Embed a nested, demarcated component
+                        if (demarc_count == 1
+                                and not segment_id
+                                and segment_type is PathSegmentTypes.SEARCH
+                                and search_method is not None):
+                            # This mark opens a demarcated search term
+                            term_demarc_mark = char
                         demarc_stack.append(char)
                         demarc_count += 1
                 else:
@@ -748,11 +761,14 @@ class YAMLPath:
                         segment_type is PathSegmentTypes.SEARCH
                         and search_method is not None
                 ):
-                    # Undemarcate the search term, if it is so
-                    if len(segment_id) > 1 and segment_id[0] in ["'", '"']:
-                        leading_mark = segment_id[0]
-                        if segment_id[-1] == leading_mark:
-                            segment_id = segment_id[1:-1]
+                    # Undemarcate the search term, if it is so; escaped
+                    # quotation marks at its ends are content, not marks
+                    if (term_demarc_mark is not None
+                            and len(segment_id) > 1
+                            and term_demarc_end == len(segment_id)):
+                        segment_id = segment_id[1:-1]
+                    term_demarc_mark = None
+                    term_demarc_end = -1
 
                     path_segments.append((
                         segment_type,
